@@ -19,7 +19,7 @@ RULE = ('Batches of generated coarse-grained molecules: 2-60 particles in 1-4 ch
         'force, residue separation 0-4 (explicit or from the force-field variable). Each molecule is run three times '
         '(as is, rigidly moved, atoms inserted in another order) and once with a NaN coordinate. Non-trivial = irregular '
         'selection (not all atoms, not only backbone) or >= 2 chains, with >= 1 expected bond and >= 1 pair rejected by '
-        'each of at least two different criteria. distinct = distinct (molecule, parameters) hashes.')
+        'each of at least two different criteria. distinct = distinct (molecule, parameters) hashes. Also: overlapping / nested / reversed residue regions (non-transitive domains); coordinates and cut-offs on a 0.25 lattice where equality with the upper cut-off is decided; minimum force equal to the base constant.')
 ASSUMPTIONS = ['pairs whose distance is within 1e-9 (relative) of the upper cut-off, or whose force constant is within '
                '1e-9 (relative) of the minimum force, are undecided',
                'bond length must equal the distance within 0.5e-5 (+1e-12); force constant within 1e-9 relative',
